@@ -55,13 +55,12 @@ theorem pending_not_released (env : C03.Env) (s : C03.State E) (hp : (C03.loopSt
 theorem writeBack_fresh (env : C03.Env) (r : RState E) (t : Int) :
     let sv := viewOf r r.srv t
     let sv' := C03.loopStep env sv
-    writeBack r.srv sv sv' =
-      { P := sv'.P, base := sv'.base, ess := sv'.ess, marked := sv'.marked, blocked := sv'.blocked, gone := sv'.gone } := by
+    writeBack r.srv sv sv' = objOfS sv' := by
   intro sv sv'
   have he : sv'.ess = r.srv.ess := C03.loopStep_ess env sv
   have hm : sv'.marked = r.srv.marked := C03.loopStep_marked env sv
   have hg : r.srv.gone = true → sv'.gone = true := fun h => C03.gone_stays env sv h
-  unfold writeBack
+  unfold writeBack objOfS
   rw [he, hm]
   congr 1
   · funext i
@@ -76,8 +75,12 @@ theorem writeBack_fresh (env : C03.Env) (r : RState E) (t : Int) :
     · simp
     · simp [hg h]
 
-def objOf (s : C03.State E) : Obj E :=
-  { P := s.P, base := s.base, ess := s.ess, marked := s.marked, blocked := s.blocked, gone := s.gone }
+theorem objOfS_viewOf (r : RState E) (o : Obj E) (t : Int) : objOfS (viewOf r o t) = o := rfl
+
+/-- on a fresh view the write-back changes the server exactly when the turn changed its view: never a no-op -/
+theorem echo_fresh (ids : List Id) (a b : Obj E) (p q : Bool) :
+    (p && !(p && objDiffers ids a b && !objDiffers ids a b && q)) = p := by
+  cases p <;> cases objDiffers ids a b <;> simp
 
 theorem iter0_ver (env : C03.Env) (r : RState E) (ev : Ev E) (rest : List (Ev E)) (t0 : Int) :
     (iter0 env r ev rest t0).ver = some ⟨ev.ver, false⟩ := rfl
@@ -96,8 +99,8 @@ theorem work_fresh (T : Int) (env : C03.Env) (r : RState E) (ev : Ev E) (hc : r.
     (hq : r.queue = [ev]) (hv : ev.ver = r.rv) (hs : ev.snap = r.srv) (t0 : Int)
     (ht0 : t0 = if r.clock < ev.at_ then ev.at_ else r.clock) (sv' : C03.State E)
     (hsv' : sv' = C03.loopStep env (viewOf r r.srv t0)) (tret : Int) (htret : tret = if sv'.now < t0 then t0 else sv'.now) :
-    (work T env 0 r).srv = objOf sv' ∧
-    (work T env 0 r).queue = (if sv'.pending then [{ ver := r.rv + 1, snap := objOf sv', at_ := tret, own := true }] else []) ∧
+    (work T env 0 r).srv = objOfS sv' ∧
+    (work T env 0 r).queue = (if sv'.pending then [{ ver := r.rv + 1, snap := objOfS sv', at_ := tret, own := true }] else []) ∧
     (work T env 0 r).noticed = sv'.noticed ∧ (work T env 0 r).fullyHandled = sv'.fullyHandled ∧
     (work T env 0 r).resumed = sv'.resumed ∧ (work T env 0 r).carried = .none ∧
     (work T env 0 r).clock = tret ∧ (work T env 0 r).writes = sv'.writes ∧
@@ -110,9 +113,9 @@ theorem work_fresh (T : Int) (env : C03.Env) (r : RState E) (ev : Ev E) (hc : r.
   have hturn := turnOf_fresh env r.carried (C07.process none (iter0 env r ev [] (if r.clock < ev.at_ then ev.at_ else r.clock))) r.rv
     (viewOf r r.srv (if r.clock < ev.at_ then ev.at_ else r.clock)) hheld
   have hwb := writeBack_fresh env r (if r.clock < ev.at_ then ev.at_ else r.clock)
-  simp only [work, hq, iter0_ver, hs, hv, harr, init_deadline, List.head?_nil, Option.map_none, hturn, hwb,
-    List.nil_append, List.getLast?_nil, Int.natCast_zero, Int.add_zero, Int.lt_irrefl, if_false]
-  refine ⟨rfl, rfl, trivial, trivial, trivial, trivial, trivial, trivial, ?_⟩
+  simp only [work, turn, patchedOf, hq, iter0_ver, hs, hv, harr, init_deadline, List.head?_nil, Option.map_none, hturn, hwb,
+    List.nil_append, List.getLast?_nil, Int.natCast_zero, Int.add_zero, Int.lt_irrefl, if_false, objOfS_viewOf, echo_fresh]
+  refine ⟨trivial, trivial, trivial, trivial, trivial, trivial, trivial, trivial, ?_⟩
   intro hp
   have hrel := pending_not_released env (viewOf r r.srv (if r.clock < ev.at_ then ev.at_ else r.clock)) hp
   simp only [hp, hrel, Bool.true_or, if_true, C07.stepEvent, iterOf_ver, iter0_ver, C07.feedback, iterOf_patched]
